@@ -60,7 +60,7 @@ ASSUMPTIONS = [
     'the binary format is documented to drop descriptions and helpers; reportable, key order lists and the '
     'explicit-empty @resources marker are not stored (dictionary order of keyvalues is)',
     'export() may turn a None value list of a CHOICES/SPAWNFLAGS keyvalue into [] (documented by choices_list/flags_list)',
-    'PYTHONHASHSEED=0 (set iteration order of tags is sorted by the writer anyway)',
+    'PYTHONHASHSEED pinned to VERIF_SEED (set iteration order of tags is sorted by the writer anyway)',
 ]
 JOBS = {'quick': 4, 'thorough': 16}
 
